@@ -73,6 +73,13 @@ func c20Universes(level int) []c20Universe {
 	// the same, with the file:// scheme (relative)
 	us = append(us, mk("same-basename-file-scheme", [4]string{"x/mainx.json", "x/common.json", "y/mainy.json", "y/common.json"},
 		[4]J{{"c": ref("file://common.json")}, {"fromX": str}, {"c": ref("file://common.json")}, {"fromY": in}}, [4]J{}, noExtra))
+	// file names that differ only in what follows the last dot: service.json / service.yaml (JSON and flow-style YAML), types.v1.json /
+	// types.v2.json; the second pair is referenced by the first one without extension (--resolve-extension .json)
+	{
+		u := mk("same-stem/flat", [4]string{"service.json", "service.yaml", "types.v1.json", "types.v2.json"},
+			[4]J{{"name": str, "t": ref("types.v1")}, {"replicas": in, "t": ref("types.v2")}, {"one": str}, {"two": in}}, ownDefs, noExtra)
+		us = append(us, u)
+	}
 	common := func(field string, t J) J {
 		return J{"Common": J{"type": "object", "properties": J{field: t}, "required": A{field}}}
 	}
